@@ -869,6 +869,52 @@ pub mod verif {
     }
 }
 
+/// Verification hook: `ht_file::open` / `ht_file::create` on caller-supplied files, the seed an
+/// opened table probes with.
+#[cfg(nomt_verif)]
+pub mod verif_ht {
+    use crate::io::PagePool;
+    use std::{fs::File, path::PathBuf};
+
+    /// What `ht_file::open` returned: the data page offset, the length of the meta map in bytes,
+    /// its bucket count and `MetaMap::full_count`.
+    pub struct HtOpened {
+        pub data_page_offset: u64,
+        pub meta_bytes_len: usize,
+        pub buckets: usize,
+        pub full_count: usize,
+    }
+
+    /// The real `ht_file::open`.
+    pub fn open(num_pages: u32, ht_fd: &File) -> anyhow::Result<HtOpened> {
+        let (offsets, meta_map) = super::ht_file::open(num_pages, &PagePool::new(), ht_fd)?;
+        // the length of the meta map, counted through `page_slice` (which panics past the end)
+        let mut meta_bytes_len = 0;
+        let expected = ((num_pages as u64 + 4095) / 4096) as usize;
+        for i in 0..expected {
+            meta_bytes_len += meta_map.page_slice(i).len();
+        }
+        Ok(HtOpened {
+            data_page_offset: offsets.data_page_index(0),
+            meta_bytes_len,
+            buckets: meta_map.len(),
+            full_count: meta_map.full_count(),
+        })
+    }
+
+    /// The real `ht_file::create` (files `ht` and `wal` inside `path`).
+    pub fn create(path: PathBuf, num_pages: u32, preallocate: bool) -> std::io::Result<()> {
+        super::ht_file::create(path, num_pages, preallocate)
+    }
+
+    impl super::DB {
+        /// The seed this table hashes page ids with.
+        pub fn verif_seed(&self) -> [u8; 16] {
+            self.shared.seed
+        }
+    }
+}
+
 /// Verification hook: the real `DB::prepare_sync` on a caller-supplied table state and changeset,
 /// without a store and without I/O.
 #[cfg(nomt_verif)]
